@@ -33,7 +33,7 @@ for k in range(K):
 def run(patch):
     wt=pool.get()
     try:
-        out=subprocess.run([f'{V}/tools/try_patch_wt.sh', patch, wt], capture_output=True, text=True).stdout
+        out=subprocess.run([f'{V}/tools/try_patch_wt.sh', patch, wt], capture_output=True, text=True, errors='replace').stdout
     finally:
         pool.put(wt)
     props=sorted({l.split('property=')[1].split()[0] for l in out.splitlines() if l.startswith('VIOLATION')})
